@@ -501,3 +501,57 @@ def run(ctx):
     ctx.guard(r06_7)
     from . import c05 as _c05
     ctx.guard(_c05.r05_7)           # a wrapper that rebuilds its interval while answering makes values depend on the history
+
+
+# ------------------------------------------------------------------------------------------------ R06.9
+def r06_9(ctx):
+    """Objects do not influence each other: the seeds a node gets are a function of that object's (entropy, pool size) and
+    the node's (key, depth) -- whatever other Brownian objects in the process did before.
+
+    One evaluator session (module-level state of the package persists in it) first splits a node of object A, then the
+    node at some position of object B; B differs from A in exactly one of entropy / pool size / key / depth, or in none.
+    B's seeds must equal those of a fresh session in which B is alone."""
+    from .c04 import eval_split_exact  # noqa: F401  (same set-up, two objects in one session here)
+    rep, model = ctx.rep, ctx.model
+    rep.rule("R06.9", "no state shared between Brownian objects: a node's seeds in a process that has already split nodes of "
+                      "another object equal its seeds in a fresh process")
+    se = model.func(BI, "_Interval._split_exact")
+    rep.analysed(se)
+    icls = model.cls(BI, "_Interval")
+
+    def split(it, ent, pool, key, depth):
+        top, _ = bk.make_top(model, extra={"_entropy": nf.sym(ent, True), "_pool_size": nf.sym(pool, True)})
+        parent = Obj("parent", attrs={"_spawn_key": nf.sym(key, True), "_depth": nf.sym(depth, True)})
+        node = Obj("node", cls=icls, attrs={"_parent": parent, "_is_left": True, "_top": top, "_start": nf.sym("a", True),
+                                            "_end": nf.sym("b", True), "_midway": None})
+        it.call_function(se, [node, nf.sym("m", True)], {})
+        slots = sorted(k for k in node.attrs if k.endswith("_seed"))
+        return tuple((k, node.attrs[k]) for k in slots)
+    A = ("ENTROPY", "POOL", "K", "D")
+    for label, B in (("same entropy, another pool size", ("ENTROPY", "POOL2", "K", "D")),
+                     ("another entropy", ("ENTROPY2", "POOL", "K", "D")),
+                     ("another position", ("ENTROPY", "POOL", "K2", "D")),
+                     ("another depth", ("ENTROPY", "POOL", "K", "D2")),
+                     ("an equal object", A)):
+        it = Interp(model, bk.BrownianHooks())
+        split(it, *A)
+        got = split(it, *B)
+        want = split(Interp(model, bk.BrownianHooks()), *B)
+        ok = len(got) == len(want) and all(k1 == k2 and isinstance(v1, Rat) and nf.equal(v1, v2)
+                                           for (k1, v1), (k2, v2) in zip(got, want))
+        diff = next(((k1, v1, v2) for (k1, v1), (k2, v2) in zip(got, want) if not (isinstance(v1, Rat) and nf.equal(v1, v2))),
+                    None)
+        rep.check(ok, "R06.9", astq.loc(se), f"{se.key}::R06.9::{label}",
+                  f"after a node of one Brownian object has been split, the node of a second object ({label}) gets "
+                  f"{diff[0] if diff else ''} = `{diff[1] if diff else ''}`; alone in the process it gets `{diff[2] if diff else ''}`: "
+                  f"two objects built with the same entropy and options do not return the same values if a third object was "
+                  f"used in between", "same seeds as in a fresh process")
+    ctx.floor("R06.9", 5)
+
+
+_run_c06i = run
+
+
+def run(ctx):
+    _run_c06i(ctx)
+    ctx.guard(r06_9)
